@@ -360,3 +360,49 @@ Proof.
     replace (8 * N.of_nat w * i + k <? 8 * (N.of_nat w * count)) with true by (symmetry; apply N.ltb_lt; nia).
     cbn [andb]. f_equal. lia.
 Qed.
+
+(* ---------------------------------------------------------------------------------------------
+   Python float members: add_(un)aligned_f16/32/64 = the bytes methods on struct.pack("<e|f|d", x) (with the OverflowError
+   fallback to +-inf), fetch_(un)aligned_f16/32/64 = struct.unpack of the fetched bytes.  struct is not modelled: its packing
+   law is the named hypothesis float_to_bytes_law (size bytes, each < 256); everything else is proved. *)
+Definition float_to_bytes_law {F : Type} (float_to_bytes : N -> F -> bytes) : Prop :=
+  forall size x, (size = 2 \/ size = 4 \/ size = 8) -> blen (float_to_bytes size x) = size /\ bytes_ok (float_to_bytes size x).
+
+Theorem add_float_appends {F : Type} (float_to_bytes : N -> F -> bytes) (aligned : bool) s size (x : F) :
+  float_to_bytes_law float_to_bytes -> (size = 2 \/ size = 4 \/ size = 8) ->
+  Inv s -> bytes_ok (s_buf s) ->
+  (if aligned then s_off s mod 8 = 0 /\ s_off s / 8 + size <= blen (s_buf s) else s_off s / 8 + size < blen (s_buf s)) ->
+  exists s', (if aligned then add_aligned_float F float_to_bytes s size x else add_unaligned_float F float_to_bytes s size x) = Some s' /\
+             appended s s' (8 * size) (bit (float_to_bytes size x)).
+Proof.
+  intros Law Hsz HI Hok Hcap. destruct (Law size x Hsz) as (L & K). destruct aligned.
+  - destruct Hcap as [Hal Hcap]. unfold add_aligned_float.
+    destruct (add_aligned_bytes_appends s (float_to_bytes size x) HI Hok K Hal ltac:(rewrite L; exact Hcap)) as (s' & E & A).
+    exists s'. split; [exact E|]. rewrite L in A. exact A.
+  - unfold add_unaligned_float.
+    destruct (add_unaligned_bytes_appends s (float_to_bytes size x) HI Hok K ltac:(left; rewrite L; exact Hcap)) as (s' & E & A).
+    exists s'. split; [exact E|]. rewrite L in A. exact A.
+Qed.
+
+Theorem fetch_float_spec {F : Type} (bytes_to_float : N -> bytes -> F) (aligned : bool) d size :
+  bytes_ok (d_buf d) -> (aligned = true -> d_off d mod 8 = 0) ->
+  exists bs d', (if aligned then fetch_aligned_float bytes_to_float d size else fetch_unaligned_float bytes_to_float d size)
+                = Some (bytes_to_float size bs, d') /\
+    d_buf d' = d_buf d /\ d_off d' = d_off d + 8 * size /\ blen bs = size /\ bytes_ok bs /\
+    forall k, bit bs k = (k <? 8 * size) && bit (d_buf d) (d_off d + k).
+Proof.
+  intros Hok Hal. destruct aligned.
+  - specialize (Hal eq_refl). unfold fetch_aligned_float, fetch_aligned_bytes. rewrite Hal. cbn [N.eqb negb].
+    pose proof (zeb_get_unsigned_slice_spec (d_buf d) (d_off d / 8) (d_off d / 8 + size)) as X.
+    replace (d_off d / 8 + size <? d_off d / 8) with false in X by (symmetry; apply N.ltb_ge; lia).
+    destruct X as (out & E & L & Ho & Hb). rewrite E. exists out. eexists. split; [reflexivity|]. cbn [d_buf d_off].
+    split; [reflexivity|]. split; [lia|]. split; [lia|]. split; [apply Ho; exact Hok|]. intros k. rewrite Hb.
+    replace (d_off d / 8 + size - d_off d / 8) with size by lia. replace (8 * (d_off d / 8) + k) with (d_off d + k) by lia. reflexivity.
+  - unfold fetch_unaligned_float. destruct (fetch_unaligned_bytes_spec d size Hok) as (out & d' & E & A & B & C & D & G).
+    rewrite E. exists out, d'. auto 10.
+Qed.
+
+(* C++ twin of the offset wrap of nunavutSetUxx (see CPrimsWThm.set_uxx_offset_wrap_refuted) *)
+Theorem cpp_set_uxx_offset_wrap_refuted :
+  exists s value len, span_okb s = true /\ sp_bits s < len /\ cpp_set_uxx s value len = None.
+Proof. exists (mkspan [0; 0] 2 (two64 - 8)), 255, 16. vm_compute. repeat split. Qed.
